@@ -39,6 +39,8 @@ package http3
 //@   ensures [content-length] implies(result1 == nil, result0.ContentLength >= -1)
 //@   modifies *headerFields, elems(qpack.HeaderField)
 //@ loop parseHeaders #0
+//@   bodyensures [pseudo-header-accepted-once] implies(lastresultb("(HeaderField).IsPseudo"), implies(h.Name == ":path", !prev(readPath) && readPath) && implies(h.Name == ":method", !prev(readMethod) && readMethod) && implies(h.Name == ":authority", !prev(readAuthority) && readAuthority) && implies(h.Name == ":protocol", !prev(readProtocol) && readProtocol) && implies(h.Name == ":scheme", !prev(readScheme) && readScheme) && implies(h.Name == ":status", !prev(readStatus) && readStatus))
+//@   bodyensures [a-pseudo-header-once-seen-stays-seen] implies(prev(readPath), readPath) && implies(prev(readMethod), readMethod) && implies(prev(readAuthority), readAuthority) && implies(prev(readProtocol), readProtocol) && implies(prev(readScheme), readScheme) && implies(prev(readStatus), readStatus)
 //@   bodyensures [every-accepted-field-is-validated] calledinloop("validateHeaderFieldNameAndValue") == 1 && implies(!lastresultb("(HeaderField).IsPseudo"), calledinloop("validateRegularHeaderField") == 1)
 //@   invariant [budget-not-exceeded] sizeLimit >= 0
 //@   invariant [request-kind] implies(isRequest, hdr.Status == "")
@@ -306,3 +308,32 @@ package http3
 //@   props C18
 //@   ensures [limit-recorded] result != nil && result.body.hasContentLength == (contentLength >= 0) && implies(contentLength >= 0, result.body.remainingContentLength == contentLength) && !result.body.violatedContentLength
 //@   modifies nothing
+
+// writeHeader (server): what is serialised as the response header section. Keys that net/http reserves for declaring
+// trailers after the fact ("Trailer:"-prefixed) and declared trailers are never emitted as header fields; the prefix test
+// is made on the key as the handler wrote it (C19: everything the response writer emits is a valid field section).
+//@ func (f *headersFrame) Append
+//@   trusted two varint appends (frame type 1, length); only "returns some slice" is used
+//@   modifies b[*]
+//@ func qlogCreatedHeadersFrame
+//@   trusted qlog only
+//@   modifies nothing
+//@ func (s *Stream) writeUnframed
+//@   trusted writes to the QUIC stream (blocking); the last step of writeHeader, nothing is assumed about it
+//@   modifies everything
+//@ extern (b *bytes.Buffer) Len
+//@   ensures result >= 0 && result <= 1099511627776
+//@   modifies nothing
+//@ func (w *responseWriter) writeHeader#impl
+//@   props C19
+//@   requires w.str != nil
+//@   modifies everything
+//@ loop (w *responseWriter) writeHeader #0
+//@   modifies everything
+//@ loop (w *responseWriter) writeHeader #1
+//@   modifies everything
+//@ loop (w *responseWriter) writeHeader #2
+//@   modifies everything
+//@ loop (w *responseWriter) writeHeader #3
+//@   bodyensures [trailer-prefixed-keys-are-never-emitted] calledinloop("(*Encoder).WriteField") == 1 && called("HasPrefix") >= 1 && !lastresultb("HasPrefix") && lastarg("HasPrefix", 0) == k && lastarg("HasPrefix", 1) == "Trailer:"
+//@   modifies everything
